@@ -4,24 +4,30 @@
 # and the demonstration passes without / fails with the change.
 set -u
 SEED="$1"; OUT="$2"; shift 2; XFLAGS="$*"
+mkdir -p /tmp/confirm
+exec 9>/tmp/confirm/lock
+flock 9            # one confirmation at a time: they share the scratch worktree and its build directory
+T=/tmp/confirm/run_$$
+mkdir -p $T
 WT=/tmp/confirm/wt
 if [ ! -d "$WT" ]; then git -C /repo worktree add --detach "$WT" HEAD >/dev/null 2>&1; fi
 cd "$WT" && git checkout -q -- . && git checkout -q --detach "$(git -C /repo rev-parse HEAD)"
 [ -d _build ] || cmake -G Ninja -B _build -DBUILD_TESTS=ON -DCMAKE_BUILD_TYPE=RelWithDebInfo -DCMAKE_CXX_FLAGS=-Wno-error >/dev/null 2>&1
 INC="-I$WT/include -I$WT/_build/include -I/usr/include/eigen3"
-g++ -std=gnu++20 -O1 -pthread $XFLAGS $INC "$SEED/demo.cpp" -o /tmp/confirm/demo_clean 2>/tmp/confirm/demo_clean.err; C0=$?
-timeout 600 /tmp/confirm/demo_clean >/tmp/confirm/demo_clean.out 2>&1; R0=$?
+g++ -std=gnu++20 -O1 -pthread $XFLAGS $INC "$SEED/demo.cpp" -o $T/demo_clean 2>$T/demo_clean.err; C0=$?
+timeout 600 $T/demo_clean >$T/demo_clean.out 2>&1; R0=$?
 git apply "$SEED/patch.diff"; AP=$?
-g++ -std=gnu++20 -O1 -pthread $XFLAGS $INC "$SEED/demo.cpp" -o /tmp/confirm/demo_patched 2>/tmp/confirm/demo_patched.err; C1=$?
-timeout 600 /tmp/confirm/demo_patched >/tmp/confirm/demo_patched.out 2>&1; R1=$?
-cmake --build _build -j16 >/tmp/confirm/build.log 2>&1; B=$?
-ctest --test-dir _build -j16 --timeout 900 >/tmp/confirm/ctest.log 2>&1; T=$?
-SUMMARY=$(grep -E "tests passed|tests failed" /tmp/confirm/ctest.log | tail -1)
+g++ -std=gnu++20 -O1 -pthread $XFLAGS $INC "$SEED/demo.cpp" -o $T/demo_patched 2>$T/demo_patched.err; C1=$?
+timeout 600 $T/demo_patched >$T/demo_patched.out 2>&1; R1=$?
+cmake --build _build -j16 >$T/build.log 2>&1; B=$?
+ctest --test-dir _build -j16 --timeout 900 >$T/ctest.log 2>&1; T=$?
+SUMMARY=$(grep -E "tests passed|tests failed" $T/ctest.log | tail -1)
 git checkout -q -- .
 python3 - "$OUT" <<PY
 import json,sys
 json.dump({"patch_applies": $AP==0, "demo_compiles_clean": $C0==0, "demo_exit_clean": $R0, "demo_compiles_patched": $C1==0, "demo_exit_patched": $R1,
            "suite_builds_with_patch": $B==0, "ctest_exit_with_patch": $T, "ctest_summary": """$SUMMARY""",
-           "demo_output_patched_tail": open('/tmp/confirm/demo_patched.out').read()[-600:]}, open(sys.argv[1],'w'), indent=1)
+           "demo_output_patched_tail": open('$T/demo_patched.out').read()[-600:]}, open(sys.argv[1],'w'), indent=1)
 PY
 cat "$OUT"
+rm -rf $T
